@@ -243,6 +243,8 @@ def flush_history(rng, n_calls, cfg, faults=0):
         if k in fault_at:
             call = rng.choice(["fdatasync", "fdatasync", "write"])
             plan = [{"call": call, "nth": rng.choice([1, 1, 2, 3])}]
+            if call == "write" and rng.random() < 0.7:
+                plan[0]["partial"] = rng.choice([1, 5, 17, 30])   # a torn write: some bytes land, then EIO
             if rng.random() < 0.3:
                 plan.append({"call": "fdatasync", "nth": plan[0]["nth"] + 1})
             steps.append({"a": "fault", "plan": plan})
